@@ -39,8 +39,8 @@ def isiterable(x):
 
 def _b(message):
     """convert string to correct format for buffer object"""
-    import codecs
-    return codecs.latin_1_encode(message)[0]
+    import codecs # python source is utf-8, unless it declares otherwise
+    return codecs.utf_8_encode(message)[0]
 
 
 if __name__=='__main__':
